@@ -462,8 +462,17 @@ def check_connectivity_defaults(ctx: Ctx):
         ctx.undecided("R07.5.floor", None, None, "floor:R07.5", f"{n} connectivity parameters found, confirmed floor is 3")
 
 
+def _run_rule(ctx, name, fn):
+    """a sub-rule that cannot be evaluated is recorded as undecided; the remaining rules still run"""
+    try:
+        return fn(ctx)
+    except (Undecided, AnchorMissing) as e:
+        ctx.undecided(name, None, None, f"{name}:analysis", f"{type(e).__name__}: {e}")
+        return 0
+
+
 def check(ctx: Ctx):
-    check_no_wraparound(ctx)
+    _run_rule(ctx, "check_no_wraparound", check_no_wraparound)
     from . import c02, c10
 
     for fn, rule in ((check_chain, "R07.1"), (check_edt, "R07.4"), (check_connectivity_defaults, "R07.5"), (check_metric_consistency, "R07.6"), (c10.check_bbox, "R10.2"), (c10.check_crop_mask, "R10.3"), (c02.check_single_instance, "R02.5")):
